@@ -70,6 +70,8 @@ pub struct Report {
     pub traces_validated: u64,
     pub capped: bool,
     pub completed: Vec<String>,
+    #[serde(default)]
+    pub completed_counts: BTreeMap<String, u64>,
     pub machinery_errors: Vec<String>,
     pub extra: BTreeMap<String, Value>,
 }
@@ -131,9 +133,7 @@ impl Report {
         self.traces_validated += o.traces_validated;
         self.capped |= o.capped;
         for c in o.completed {
-            if !self.completed.contains(&c) {
-                self.completed.push(c);
-            }
+            *self.completed_counts.entry(c).or_insert(0) += 1;
         }
         self.machinery_errors.extend(o.machinery_errors);
         for (k, v) in o.extra {
@@ -193,6 +193,11 @@ pub fn run_sharded(id: &str, part: &str, tier: Tier, seed: u64, cap_s: f64, nsha
             Err(e) => total.machinery(format!("worker {i} of {id}/{part}: unparsable report: {e}")),
         }
     }
+    // a sub-space counts as completed only if every shard completed it
+    let mut done: Vec<String> = total.completed_counts.iter().filter(|(_, n)| **n == nshards as u64).map(|(k, _)| k.clone()).collect();
+    done.sort();
+    total.completed.extend(done);
+    total.completed_counts.clear();
     total
 }
 
